@@ -21,6 +21,12 @@ THEOREMS = [
     ('NoteSeqVerif.Props.C12_quantize', 'NSV.C12.quantizeAbs_perm'),
     ('NoteSeqVerif.Props.C12_quantize', 'NSV.C12.quantizeRel_perm'),
     ('NoteSeqVerif.Props.C12_quantize', 'NSV.C12.foldl_max_perm'),
+    # "keeps the first STORED tempo / time signature" is immaterial because the validation compares exactly; with a
+    # tolerance in front of the same tempos[0] the result depends on storage order (seeded C12-10)
+    ('NoteSeqVerif.Props.C12_quantize', 'NSV.C12.checkTempos_kept_is_every_stored'),
+    ('NoteSeqVerif.Props.C12_quantize', 'NSV.C12.checkTimeSigs_kept_is_every_stored'),
+    ('NoteSeqVerif.Props.C12_quantize', 'NSV.C12.tempo_tolerance_depends_on_order'),
+    ('NoteSeqVerif.Props.C12_quantize', 'NSV.C12.tempo_exact_rejects_both_orders'),
 ]
 # further operation families register themselves here as their models land: every harness/c12_extra_*.py exposes
 # EXTRA = [(lean module, [theorem names], exe or None), ...] and optionally run_streams(chk) (model tie on permuted inputs)
@@ -36,51 +42,104 @@ for _f in sorted(_glob.glob(_os.path.join(_os.path.dirname(__file__), 'c12_extra
 
 
 # ----------------------------------------------------------------------------- generator
+def ulps(x, k):
+    """the double k ulps above (k > 0) / below (k < 0) x"""
+    import math
+    for _ in range(abs(k)):
+        x = math.nextafter(x, math.inf if k > 0 else -math.inf)
+    return x
+
+
+def near_value(rng, x):
+    """a double DIFFERENT from x but close to it: 1-3 ulps or 1e-12 ... 1e-5 relative away (both sides of the usual
+    'close enough' tolerances 1e-9 / 1e-6) - the values on which an equality test and a tolerance test part ways"""
+    k = rng.random()
+    if k < 0.4 or x == 0:
+        y = ulps(x, rng.choice([1, 2, 3, -1, -2, -3]))
+    else:
+        y = x * (1 + rng.choice([1, -1]) * rng.choice([1e-12, 1e-10, 1e-9, 1e-7, 5e-7, 9.9e-7, 1e-6, 1.01e-6, 1e-5]))
+    return y if y != x else ulps(x, 1)
+
+
 def gen_noties(rng, max_notes=8, quantizable=False, instruments=3):
     """a NoteSequence satisfying the quantifier: no two same-pitch notes overlap or coincide,
-    no two state events of one kind share a time."""
+    no two state events of one kind share a time.
+
+    Inside the quantifier the generator goes for the places where a storage-order dependence can hide:
+    * values that are "the same for every purpose but equality": tempos whose qpm differ by 1-3 ulps / 1e-12..1e-5
+      relative (a validation that tolerates them must not then keep "the first stored one"), event and note times 1-3 ulps
+      / 1e-9 apart (distinct, hence inside the quantifier; a rounded sort key would turn them into ties);
+    * per-note fields that the code aggregates over all notes of an instrument: MIDI programs that disagree inside one
+      instrument (one odd note among >= 3, anywhere in the storage order), is_drum mixed / uniform;
+    * both ends of the legal ranges: pitch 0 / 127, velocity 1 / 127, zero-length notes, empty sequence."""
     from note_seq.protobuf import music_pb2
     ns = music_pb2.NoteSequence()
     ns.ticks_per_quarter = 220
     grid = 0.125
     slots = {}
+    # program of a note: by instrument (uniform inside an instrument) or, in 30% of the sequences, one of two programs
+    # drawn per note (a conflict inside the instrument); drums: per note, or none at all (so that programs matter)
+    prog_conflict = rng.random() < 0.3
+    no_drums = rng.random() < 0.4
+    if rng.random() < 0.25:
+        instruments = 1
     for _ in range(rng.randrange(0, max_notes + 1)):
-        pitch = rng.choice([60, 60, 62, 64, 36, 38, rng.randrange(30, 100)])
+        pitch = rng.choice([60, 60, 62, 64, 36, 38, rng.randrange(30, 100), rng.choice([0, 127, 1, 126])])
         cur = slots.get(pitch, 0)
         start = (cur + rng.randrange(0, 6)) * grid
         length = rng.randrange(1, 8) * grid
-        if rng.random() < 0.3:
+        k = rng.random()
+        if k < 0.3:
             start += rng.random() * 0.05
+        elif k < 0.45:
+            # near-coincidence with whatever else sits on this grid point: a few ulps / 1e-9 later
+            start = ulps(start, rng.choice([1, 2, 3])) if rng.random() < 0.6 else start + rng.choice([1e-9, 1e-7, 1e-6])
+        zero = rng.random() < 0.06
+        if zero:
+            length = 0.0
         n = ns.notes.add()
-        n.pitch, n.velocity = pitch, rng.choice([100, 64, 30, rng.randrange(1, 128)])
+        n.pitch, n.velocity = pitch, rng.choice([100, 64, 30, 1, 127, rng.randrange(1, 128)])
         n.start_time, n.end_time = start, start + length
         n.instrument = rng.randrange(instruments)
         n.program = [0, 5, 40][n.instrument % 3]
-        n.is_drum = pitch in (36, 38) and rng.random() < 0.7
+        if prog_conflict:
+            n.program = rng.choice([n.program, n.program, 17])
+        n.is_drum = (not no_drums) and pitch in (36, 38) and rng.random() < 0.7
         n.voice = rng.randrange(10000)
         slots[pitch] = int((start + length) / grid) + 1 + rng.choice([0, 0, 0, 1, 2])  # abut sometimes (gap 0 excluded: +1)
-        if rng.random() < 0.35:
+        if rng.random() < 0.35 and not zero:
             slots[pitch] = int(round((start + length) / grid))   # abutting (touching, not overlapping)
             if slots[pitch] * grid < start + length:
                 slots[pitch] += 1
     end = max([n.end_time for n in ns.notes] + [1.0])
 
     def times(k):
-        return rng.sample([i * 0.25 for i in range(0, int(end * 4) + 2)], min(k, int(end * 4) + 2))
+        ts = rng.sample([i * 0.25 for i in range(0, int(end * 4) + 2)], min(k, int(end * 4) + 2))
+        if len(ts) >= 2 and rng.random() < 0.2:
+            # two events of one kind a few ulps / 1e-9 s apart (distinct times: still inside the quantifier)
+            i, j = rng.sample(range(len(ts)), 2)
+            t = ulps(ts[j], rng.choice([1, 2, 3])) if rng.random() < 0.6 else ts[j] + rng.choice([1e-9, 1e-7, 1e-6])
+            if t not in ts:
+                ts[i] = t
+        return ts
     if quantizable:
         qpm = rng.choice([120.0, 90.0, 60.0])
-        for t in times(rng.choice([0, 1, 2, 3])):
-            x = ns.tempos.add(); x.time, x.qpm = t, qpm
-        if ns.tempos and qpm != 120.0 and all(t.time != 0 for t in ns.tempos):
-            ns.tempos[0].time = 0.0
+        near = rng.random() < 0.25         # near-equal (never equal) qpm values: a tempo change, whatever the storage order
+        for j, t in enumerate(times(max(2, rng.choice([2, 3])) if near else rng.choice([0, 1, 2, 3]))):
+            x = ns.tempos.add(); x.time, x.qpm = t, (near_value(rng, qpm) if near and j and rng.random() < 0.8 else qpm)
+        if ns.tempos and (qpm != 120.0 or near) and all(t.time != 0 for t in ns.tempos):
+            ns.tempos[rng.randrange(len(ns.tempos)) if near else 0].time = 0.0
         sig = rng.choice([(4, 4), (3, 4), (6, 8)])
         for t in times(rng.choice([0, 1, 2])):
             x = ns.time_signatures.add(); x.time, x.numerator, x.denominator = t, sig[0], sig[1]
         if ns.time_signatures and sig != (4, 4) and all(t.time != 0 for t in ns.time_signatures):
             ns.time_signatures[0].time = 0.0
     else:
+        pool = [120.0, 90.0, 60.0, 150.0]
         for t in times(rng.choice([0, 1, 2, 3])):
-            x = ns.tempos.add(); x.time, x.qpm = t, rng.choice([120.0, 90.0, 60.0, 150.0])
+            x = ns.tempos.add(); x.time, x.qpm = t, rng.choice(pool)
+            if rng.random() < 0.3:
+                pool.append(near_value(rng, x.qpm))
         for t in times(rng.choice([0, 1, 2])):
             x = ns.time_signatures.add(); x.time = t; x.numerator, x.denominator = rng.choice([(4, 4), (3, 4), (6, 8)])
     for t in times(rng.choice([0, 1, 2])):
@@ -100,6 +159,30 @@ def gen_noties(rng, max_notes=8, quantizable=False, instruments=3):
         x.program = [0, 5, 40][x.instrument % 3]
     ns.total_time = max([n.end_time for n in ns.notes] + [0.0]) if rng.random() < 0.7 else end + 0.5
     return ns
+
+
+def in_quantifier(ns):
+    """the property's quantifier, evaluated exactly on the doubles: no two same-pitch notes overlap or coincide, no two
+    state events of one kind share a time (chord symbols / beats per annotation type, pedal events and pitch bends per
+    instrument)"""
+    from fractions import Fraction as F
+    by = {}
+    for n in ns.notes:
+        by.setdefault(n.pitch, []).append((F(n.start_time), F(n.end_time)))
+    for g in by.values():
+        g.sort()
+        for (a, b), (c, d) in zip(g, g[1:]):
+            if a == c or b > c:
+                return False
+    kinds = [[F(x.time) for x in ns.tempos], [F(x.time) for x in ns.time_signatures], [F(x.time) for x in ns.key_signatures]]
+    d = {}
+    for x in ns.text_annotations:
+        d.setdefault(('text', x.annotation_type), []).append(F(x.time))
+    for x in ns.control_changes:
+        d.setdefault(('cc', x.instrument, x.control_number), []).append(F(x.time))
+    for x in ns.pitch_bends:
+        d.setdefault(('bend', x.instrument), []).append(F(x.time))
+    return all(len(set(k)) == len(k) for k in kinds + list(d.values()))
 
 
 def canon_ns(ns):
@@ -137,7 +220,7 @@ def canon_midi(pm):
                     tuple(sorted((n.pitch, n.velocity, n.start, n.end) for n in i.notes)),
                     tuple(sorted((b.pitch, b.time) for b in i.pitch_bends)),
                     tuple(sorted((c.number, c.value, c.time) for c in i.control_changes))) for i in pm.instruments)
-    return (tuple(insts), tuple(pm._tick_scales),  # pylint: disable=protected-access
+    return (tuple(insts), pm.resolution, tuple(pm._tick_scales),  # pylint: disable=protected-access
             tuple(sorted((k.key_number, k.time) for k in pm.key_signature_changes)),
             tuple(sorted((t.numerator, t.denominator, t.time) for t in pm.time_signature_changes)))
 
@@ -192,6 +275,33 @@ def operations(rng, ns, quant_ok):
     ops.append(('sustain_other_cc', lambda s: call(sl.apply_sustain_control_changes, s, 63)))
     ops.append(('transpose_nochords', lambda s: call(lambda x: sl.transpose_note_sequence(x, k, transpose_chords=False)[0], s)))
     ops.append(('split_time_changes_inside', lambda s: call(sl.split_note_sequence_on_time_changes, s, True)))
+    def perf_view(p, **kw):
+        """everything observable about a performance object: events, inferred program / is_drum, start step, and the
+        NoteSequence it converts back to (which stamps the inferred program / is_drum on every note)"""
+        try:
+            back = canon_ns(p.to_sequence(**kw))
+        except Exception as e:  # pylint: disable=broad-except
+            back = type(e).__name__
+        ev = tuple((e.event_type, e.event_value) if hasattr(e, 'event_type') else tuple((x.event_type, x.event_value) for x in e)
+                   for e in p)
+        return (ev, p.program, p.is_drum, p.start_step, back)
+
+    nbins = rng.choice([0, 4, 8, 127])
+    abs_sps = rng.choice([100, 100, 10, 31])
+
+    def performances_abs(s):
+        qa = sl.quantize_note_sequence_absolute(s, abs_sps)
+        out = []
+        for inst in (None, 0, 1, 2):
+            p = performance_lib.Performance(quantized_sequence=qa, num_velocity_bins=nbins, instrument=inst)
+            out.append(('performance', inst, perf_view(p)))
+            try:
+                p = performance_lib.NotePerformance(qa, max(nbins, 1), instrument=inst)
+                out.append(('note_performance', inst, perf_view(p)))
+            except Exception as e:  # pylint: disable=broad-except
+                out.append(('note_performance', inst, type(e).__name__))
+        return tuple(out)
+    ops.append(('performance_abs', lambda s: call(performances_abs, s)))
     if quant_ok:
         def extract_events(s):
             q = sl.quantize_note_sequence(s, spq)
@@ -201,38 +311,49 @@ def operations(rng, ns, quant_ok):
                     m = melodies_lib.Melody()
                     try:
                         m.from_quantized_sequence(q, instrument=inst, **kw)
-                        out.append(('melody', inst, tuple(m), m.start_step, m.end_step))
+                        out.append(('melody', inst, tuple(m), m.start_step, m.end_step, m.steps_per_bar, m.steps_per_quarter))
                     except Exception as e:  # pylint: disable=broad-except
                         out.append(('melody', inst, type(e).__name__))
                 d = drums_lib.DrumTrack()
                 try:
                     d.from_quantized_sequence(q)
-                    out.append(('drums', tuple(tuple(sorted(e)) for e in d), d.start_step))
+                    out.append(('drums', tuple(tuple(sorted(e)) for e in d), d.start_step, d.end_step, d.steps_per_bar, d.steps_per_quarter))
                 except Exception as e:  # pylint: disable=broad-except
                     out.append(('drums', type(e).__name__))
             c = chords_lib.ChordProgression()
             try:
                 c.from_quantized_sequence(q, 0, max(q.total_quantized_steps, 1))
-                out.append(('chords', tuple(c)))
+                out.append(('chords', tuple(c), c.start_step, c.end_step, c.steps_per_bar, c.steps_per_quarter))
             except Exception as e:  # pylint: disable=broad-except
                 out.append(('chords', type(e).__name__))
             for sr in (False, True):
                 p = pianoroll_lib.PianorollSequence(quantized_sequence=q, split_repeats=sr)
-                out.append(('pianoroll_seq', sr, tuple(tuple(int(x) for x in e) for e in p)))
+                out.append(('pianoroll_seq', sr, tuple(tuple(int(x) for x in e) for e in p), p.start_step))
             for nv in (0, 8):
-                p = performance_lib.MetricPerformance(quantized_sequence=q, num_velocity_bins=nv)
-                out.append(('metric_performance', nv, tuple((e.event_type, e.event_value) for e in p)))
-            qa = sl.quantize_note_sequence_absolute(s, 100)
-            p = performance_lib.Performance(quantized_sequence=qa, num_velocity_bins=4)
-            out.append(('performance', tuple((e.event_type, e.event_value) for e in p)))
+                for inst in (None, 0, 1):
+                    p = performance_lib.MetricPerformance(quantized_sequence=q, num_velocity_bins=nv, instrument=inst)
+                    out.append(('metric_performance', nv, inst, perf_view(p)))
             return tuple(out)
         ops.append(('event_extraction', lambda s: call(extract_events, s)))
     return ops
 
 
+def reversed_all(ns):
+    """a copy with every repeated field in REVERSE storage order (flips every pair: whatever depends on which of two
+    elements is stored first shows up deterministically, not with probability 1/2 per shuffle)"""
+    from note_seq.protobuf import music_pb2
+    c = music_pb2.NoteSequence()
+    c.CopyFrom(ns)
+    for f in ('notes', 'tempos', 'time_signatures', 'key_signatures', 'text_annotations', 'control_changes', 'pitch_bends'):
+        items = list(getattr(c, f))[::-1]
+        c.ClearField(f)
+        getattr(c, f).extend(items)
+    return c
+
+
 def permutations_of(ns, rng, k, exhaustive_notes):
     from note_seq.protobuf import music_pb2
-    outs = [nswire.shuffled(ns, rng) for _ in range(k)]
+    outs = [reversed_all(ns)] + [nswire.shuffled(ns, rng) for _ in range(k)]
     if exhaustive_notes and 2 <= len(ns.notes) <= 5:
         notes = list(ns.notes)
         for perm in itertools.permutations(range(len(notes))):
@@ -244,8 +365,62 @@ def permutations_of(ns, rng, k, exhaustive_notes):
     return outs
 
 
+def judge(chk, ns, perms, pseed, quant_ok, tag, count_key=None):
+    """the property itself on the implementation: every operation family (parameters drawn from `pseed`) on `ns` and on
+    every sequence of `perms` (same bag, other storage order) must give the same canonical result.  Also guarded, because
+    the comparison relies on it: an operation leaves its argument byte-for-byte unchanged (also when it raises) and gives
+    the same result when called twice on the same argument."""
+    import random
+    before = ns.SerializeToString(deterministic=True)
+    pbefore = [p.SerializeToString(deterministic=True) for p in perms]
+    bad = 0
+    for name, f in operations(random.Random(pseed), ns, quant_ok):
+        base = f(ns)
+        if count_key is not None:
+            chk.count('impl:' + name, (count_key, name), base[0] == 'ok', base[0] if base[0] == 'ok' else 'err:' + base[1])
+        if f(ns) != base:
+            chk.disagree('history:' + name, {'operation': name, 'param_seed': pseed, 'sequence': nswire.encode(ns)},
+                         'second call on the same argument', 'differs from the first')
+        for p in perms:
+            r = f(p)
+            if r != base:
+                chk.fail('%s: result depends on storage order%s' % (name, tag),
+                         {'operation': name, 'param_seed': pseed, 'sequence': nswire.encode(ns), 'permuted': nswire.encode(p)})
+                bad += 1
+                break
+        if ns.SerializeToString(deterministic=True) != before or any(
+                p.SerializeToString(deterministic=True) != b for p, b in zip(perms, pbefore)):
+            chk.disagree('history:' + name, {'operation': name, 'param_seed': pseed, 'sequence': nswire.encode(ns)},
+                         'argument modified in place', 'argument unchanged')
+            ns.ParseFromString(before)
+            for p, b in zip(perms, pbefore):
+                p.ParseFromString(b)
+    return bad
+
+
+def small_field_permutations(ns, limit=24):
+    """every permutation of each repeated field with 2..4 elements (one field at a time) - for corpus cases"""
+    from note_seq.protobuf import music_pb2
+    outs = []
+    for f in ('notes', 'tempos', 'time_signatures', 'key_signatures', 'text_annotations', 'control_changes', 'pitch_bends'):
+        items = list(getattr(ns, f))
+        if 2 <= len(items) <= 4:
+            for perm in list(itertools.permutations(range(len(items))))[1:limit]:
+                c = music_pb2.NoteSequence()
+                c.CopyFrom(ns)
+                c.ClearField(f)
+                getattr(c, f).extend([items[i] for i in perm])
+                outs.append(c)
+    return outs
+
+
 def run(chk):
+    import warnings
+    warnings.filterwarnings('ignore')
+    from absl import logging as absl_logging
+    absl_logging.set_verbosity(absl_logging.ERROR)
     from note_seq import sequences_lib as sl
+    from harness.common import corpus_cases
     mods = list(MODULES) + [m for m, _, _ in EXTRA]
     thms = list(THEOREMS) + [(m, t) for m, ts, _ in EXTRA for t in ts]
     exes = list(EXES) + [e for _, _, e in EXTRA if e]
@@ -253,32 +428,49 @@ def run(chk):
         'the functional models imported from the other properties (tied to the code by their own checks and re-checked here on permuted inputs)',
         'protobuf repeated-field semantics; CPython sorted() stability'])
     chk.rule = ('NoteSequences satisfying the quantifier (no same-pitch notes overlap or coincide, no two state events of one kind '
-                'share a time) x random permutations of every repeated field (thorough: plus ALL note permutations for <= 5 notes) '
-                'x every operation family of the statement; non-trivial = distinct (sequence, operation) with a non-error result')
-    rng = chk.subrng('perm')
-    n_seq = chk.n(120, 1500)
+                'share a time; incl. near-equal tempos / times 1-3 ulps apart, conflicting programs inside an instrument, range ends) '
+                'x the reversed storage order and random permutations of every repeated field (thorough: plus ALL note permutations '
+                'for <= 5 notes) x every operation family of the statement; non-trivial = distinct (sequence, operation) with a '
+                'non-error result')
     model_reqs, model_impl = [], []
+
+    def tie(p):
+        for mode, res in (('abs', 8), ('rel', 4)):
+            model_reqs.append('%s %d %s' % (mode, res, nswire.encode(p)))
+            fn = sl.quantize_note_sequence if mode == 'rel' else sl.quantize_note_sequence_absolute
+            model_impl.append(nswire.result_line(fn, p, res))
+
+    # ---- corpus: minimised regression inputs (every permutation of every small field, several parameter draws)
+    for name, obj in corpus_cases(PID):
+        ns = nswire.decode(obj['sequence'])
+        perms = [reversed_all(ns)] + small_field_permutations(ns)
+        if obj.get('permuted'):
+            perms.insert(0, nswire.decode(obj['permuted']))
+        inq = in_quantifier(ns)
+        chk.count('corpus', name, inq, 'in-quantifier:%s' % inq)
+        for pseed in obj.get('param_seeds', [0, 1]):
+            judge(chk, ns, perms, pseed, True, ' (corpus:%s)' % name)
+        for p in [ns] + perms[:3]:
+            tie(p)
+
+    rng = chk.subrng('perm')
+    n_seq = chk.n(160, 1500)
     for i in range(n_seq):
         quant_ok = rng.random() < 0.6
         ns = gen_noties(rng, max_notes=rng.choice([2, 4, 5, 8, 16]), quantizable=quant_ok)
         perms = permutations_of(ns, rng, chk.n(2, 3), chk.thorough and i % 10 == 0)
-        for name, f in operations(rng, ns, quant_ok):
-            base = f(ns)
-            chk.count('impl:' + name, (i, name), base[0] == 'ok', base[0] if base[0] == 'ok' else 'err:' + base[1])
-            for p in perms:
-                r = f(p)
-                if r != base:
-                    chk.fail('%s: result depends on storage order' % name,
-                             {'operation': name, 'sequence': nswire.encode(ns), 'permuted': nswire.encode(p)})
-                    break
+        pseed = rng.randrange(1 << 30)
+        if not in_quantifier(ns):
+            chk.count('impl:generator-outside-quantifier', i, False, 'skipped')
+            continue
+        judge(chk, ns, perms, pseed, quant_ok, '', count_key=i)
         # model tie on permuted inputs (quantize family: drv_c01)
         for p in [ns] + perms[:2]:
-            for mode, res in (('abs', 8), ('rel', 4)):
-                model_reqs.append('%s %d %s' % (mode, res, nswire.encode(p)))
-                fn = sl.quantize_note_sequence if mode == 'rel' else sl.quantize_note_sequence_absolute
-                model_impl.append(nswire.result_line(fn, p, res))
+            tie(p)
         if i < 3:
-            chk.sample({'sequence': nswire.encode(ns)[:400] + ' …', 'operations': [n for n, _ in operations(rng, ns, quant_ok)]})
+            import random
+            chk.sample({'sequence': nswire.encode(ns)[:400] + ' …',
+                        'operations': [n for n, _ in operations(random.Random(pseed), ns, quant_ok)]})
         if len(chk.failures) > 10:
             break
     for m in EXTRA_MODS:
@@ -292,23 +484,48 @@ def run(chk):
 
 
 def replay(chk, obj):
-    from note_seq.protobuf import music_pb2
     import random
+    if 'event_op' in obj or 'sustain_ctl' in obj:      # found by the model-tie streams of c12_extra_b
+        from harness import c12_extra_b
+        return c12_extra_b.replay_model_stream(chk, obj)
     if 'extraction' in obj:      # tie-break stream of c12_extra_b (chord extraction over a later step range)
         from harness import c12_extra_b
         return c12_extra_b.replay(chk, obj)
     ns = nswire.decode(obj['sequence'])
-    p = nswire.decode(obj['permuted'])
-    name = obj['operation']
+    perms = [nswire.decode(obj['permuted'])] if obj.get('permuted') else [reversed_all(ns)] + small_field_permutations(ns)
+    name = obj.get('operation')
+    seeds = [obj['param_seed']] if 'param_seed' in obj else list(obj.get('param_seeds', range(40)))
+    print('replay C12: %d notes, %d tempos; in quantifier: %s; %d other storage order(s); operation %s' % (
+        len(ns.notes), len(ns.tempos), in_quantifier(ns), len(perms), name or '(all)'))
     bad = False
-    for seed in range(40):
-        rng = random.Random(seed)
-        for n, f in operations(rng, ns, True):
-            if n == name and f(ns) != f(p):
-                print('operation %s differs between the two storage orders (parameter seed %d)' % (name, seed))
-                bad = True
+    for seed in seeds:
+        for n, f in operations(random.Random(seed), ns, True):
+            if name not in (None, n):
+                continue
+            base = f(ns)
+            for p in perms:
+                r = f(p)
+                if r != base:
+                    print('operation %s differs between the two storage orders (parameter seed %d)' % (n, seed))
+                    print('   stored order : %s' % _diff_view(base, r))
+                    print('   other order  : %s' % _diff_view(r, base))
+                    bad = True
+                    break
+            if bad:
                 break
         if bad:
             break
     print('PROPERTY FAILS' if bad else 'property holds on this input')
     return 1 if bad else 0
+
+
+def _diff_view(a, b):
+    """the first place where two canonical results differ, shortened"""
+    def walk(x, y, path):
+        if isinstance(x, tuple) and isinstance(y, tuple) and len(x) == len(y):
+            for i, (u, v) in enumerate(zip(x, y)):
+                if u != v:
+                    return walk(u, v, path + [i])
+        return path, x
+    path, x = walk(a, b, [])
+    return 'at %s: %s' % (path, repr(x)[:300])
